@@ -2,7 +2,10 @@ package checks
 
 import (
 	"crypto/ed25519"
+	"errors"
 	"fmt"
+	sif "github.com/lidofinance/dc4bc/fsm/state_machines/signing_proposal_fsm"
+	"github.com/lidofinance/dc4bc/fsm/types/requests"
 
 	"github.com/lidofinance/dc4bc/client/types"
 	spf "github.com/lidofinance/dc4bc/fsm/state_machines/signature_proposal_fsm"
@@ -173,11 +176,28 @@ func c09(tier string, args []string) int {
 			if err != nil {
 				r.Infra("lab: %v", err)
 			}
-			for _, bs := range baseStates(r, rec, lab, v) {
+			bases := baseStates(r, rec, lab, v)
+			// a signing batch cancelled by more than n-t failure reports: the node leaves that
+			// state lazily, when it handles the round's next message
+			for k := 0; k < len(rec.Snaps[v]); k++ {
+				if rec.Snaps[v][k] != nil && rec.Snaps[v][k].RoundState(rec.Round) == string(sif.StateSigningAwaitPartialSigns) {
+					var pre []storage.Message
+					for p := 0; p <= rec.W.N-rec.W.T; p++ {
+						er := requests.SignatureProposalConfirmationErrorRequest{ParticipantId: p, Error: requests.NewFSMError(errors.New("signing failed")), CreatedAt: world.T0}
+						pre = append(pre, world.SignedMessage(rec.Round, string(sif.EventSigningPartialSignError), world.MustJSON(er), rec.W.Nodes[p].Name, rec.W.Nodes[p].KeyPair.Priv, ""))
+					}
+					bases = append(bases, baseState{View: v, K: k, Pre: "signing-cancelled-by-error", Raw: rec.Snaps[v][k], PreMs: pre})
+					break
+				}
+			}
+			for _, bs := range bases {
 				if r.TimeUp() {
 					break
 				}
 				bs.Snap = bs.Materialize(lab)
+				if bs.Phase == "" {
+					bs.Phase = bs.Snap.RoundState(rec.Round)
+				}
 				// genuine messages the node could see next: the next recorded message, and (for
 				// replay-style coverage) every earlier recorded message of a different event type
 				cands := map[int]bool{}
@@ -220,6 +240,16 @@ func c09(tier string, args []string) int {
 						}
 						muts = append(muts, mutant{"other-round:bad-signature", m3})
 					}
+					// the one event name whose messages are not verified, borrowed for an EXISTING round
+					// by a stranger: only a proposal that opens a round is exempt
+					mi := g
+					mi.Event = string(spf.EventInitProposal)
+					mi.SenderAddr = "mallory"
+					mi.Signature = nil
+					muts = append(muts, mutant{"renamed-to-opening-proposal:unsigned-stranger", mi})
+					mj := mi
+					mj.Data = []byte(`{"junk":true}`)
+					muts = append(muts, mutant{"renamed-to-opening-proposal:junk-payload", mj})
 					for _, mu := range muts {
 						err, after, appended := lab.Step(bs.Snap, mu.Msg)
 						evals++
